@@ -85,4 +85,5 @@ example : shapeField
                   .mk "u" (.union "U" [.mk "x" 1 (.prim .u32)]) .plain])
     (.struct [.present (.struct [.int 5]), .sizer, .arr [.struct [.int 1]], .union 0 (.int 9)]) = true := by decide
 
+
 end Prophy.C11
